@@ -53,6 +53,14 @@ Theorem C14_become_replacement_gone :
 Proof. exact update_node_replacement_gone. Qed.
 Print Assumptions C14_become_replacement_gone.
 
+(** become keeps the graph acyclic whenever the replacement is neither the node itself nor one of
+    its descendants (the case that is not is the known finding become-onto-descendant). *)
+Theorem C14_become_acyclic :
+  forall m n u m', update_node m n u = Ok m' -> acyclic (s_edges m) -> ~ reach (s_edges m) n u ->
+    acyclic (s_edges m').
+Proof. exact update_node_acyclic. Qed.
+Print Assumptions C14_become_acyclic.
+
 (** parameter_names lists exactly the parameter nodes, sorted; the setter marks exactly the
     named nodes. *)
 Theorem C14_parameter_names :
